@@ -735,3 +735,114 @@ func callsStatically(fn, callee *ssa.Function) bool {
 	}
 	return false
 }
+
+// TokenOperatorRule: a handler that turns an operator token into an operation (x op= v becomes
+// x = x op v) takes the operator of that operation from the token on every way out: a way
+// out that hands back a statement built by a helper which is not given the operator
+// (x *= 1 "is" x--) computes with another operator.
+func TokenOperatorRule(w *World, r *Result, rule string) {
+	pf, err := BuildParserFacts(w)
+	if err != nil {
+		return
+	}
+	tokenDerived := func(v ssa.Value) bool {
+		src := newSrcSet()
+		backward(v, src, map[ssa.Value]bool{})
+		for n := range src.calls {
+			if strings.HasSuffix(n, ".Value") && strings.Contains(n, "Token") {
+				return true
+			}
+		}
+		return false
+	}
+	n := 0
+	seen := map[*ssa.Function]bool{}
+	for _, s := range pf.Slots {
+		_ = s
+	}
+	for _, fn := range w.Funcs("parser") {
+		if fn.Parent() != nil || seen[fn] {
+			continue
+		}
+		// does fn store a token-derived operator into an operation node?
+		var opVal ssa.Value
+		for _, b := range fn.Blocks {
+			for _, ins := range b.Instrs {
+				st, ok := ins.(*ssa.Store)
+				if !ok {
+					continue
+				}
+				fa, ok := st.Addr.(*ssa.FieldAddr)
+				if !ok || structFieldName(fa.X.Type(), fa.Field) != "operator" {
+					continue
+				}
+				if _, isConst := st.Val.(*ssa.Const); isConst {
+					continue
+				}
+				if tokenDerived(st.Val) {
+					opVal = st.Val
+				}
+			}
+		}
+		if opVal == nil || !returnsNode(fn) {
+			continue
+		}
+		// only statement handlers (the operator levels of the expression parser build their node
+		// in a loop and return the carried operand)
+		if res := fn.Signature.Results(); res.Len() != 2 || namedName(res.At(0).Type()) != "Statement" {
+			continue
+		}
+		seen[fn] = true
+		n++
+		key := "tokenop:" + FuncName(fn)
+		bad := ""
+		for _, b := range fn.Blocks {
+			ret, ok := b.Instrs[len(b.Instrs)-1].(*ssa.Return)
+			if !ok || isErrorReturn(ret) || len(ret.Results) == 0 {
+				continue
+			}
+			var look func(v ssa.Value, d int)
+			look = func(v ssa.Value, d int) {
+				if d > 4 || v == nil || bad != "" {
+					return
+				}
+				switch x := v.(type) {
+				case *ssa.Phi:
+					for _, e := range x.Edges {
+						look(e, d+1)
+					}
+				case *ssa.MakeInterface:
+					look(x.X, d+1)
+				case *ssa.ChangeInterface:
+					look(x.X, d+1)
+				case *ssa.Extract:
+					look(x.Tuple, d+1)
+				case *ssa.Call:
+					callee := x.Call.StaticCallee()
+					if callee == nil || !w.IsProduct(pkgOf(callee)) {
+						return
+					}
+					given := false
+					for _, a := range x.Call.Args {
+						if isNamed(a.Type(), "BinaryOperator") || isString(a.Type()) {
+							if tokenDerived(a) {
+								given = true
+							}
+						}
+					}
+					if !given && (constructsNode(callee, "BinaryOperation") || constructsNode(callee, "VariableAssignment")) {
+						bad = w.Pos(x.Pos()) + " (" + FuncName(callee) + ")"
+					}
+				}
+			}
+			look(ret.Results[0], 0)
+		}
+		pos := w.Pos(fn.Pos())
+		if bad != "" {
+			r.Bad(rule, key, pos, "one way out hands back a statement built by a helper that is not given the operator of the token: "+bad+" — for the operators the helper does not stand for (x *= 1, x /= 1, x %= 1 taken for a step) the statement computes something else")
+		} else {
+			r.Ok(rule, key, pos, "every statement handed back carries the operator taken from the token")
+		}
+	}
+	r.Analysed["handlers_desugaring_an_operator_token"] = n
+}
